@@ -141,12 +141,16 @@ def generate(seed: int, config: str, tier: str) -> Dict[str, Any]:
     envs = [e for e in ENVS if rng.random() < 0.6] or [rng.choice(ENVS)]
     n_clients = rng.randint(2, 6) if kind != "threads" else rng.randint(2, 4)
     clients: List[List[List[Any]]] = []
+    focus = (rng.choice(envs), rng.randrange(len(queries)))
     for _ in range(n_clients):
         script: List[List[Any]] = []
         n_ops = rng.randint(2, 10) if kind != "threads" else rng.randint(1, 5)
         for _ in range(n_ops):
             e = rng.choice(envs)
             qi = rng.randrange(len(queries))
+            if rng.random() < 0.6:
+                # swarm bias: most clients hammer the same compiled query (one shared cache tree to fight over)
+                e, qi = focus
             di = rng.randrange(len(docs))
             ci = rng.randrange(len(ctxs))
             r = rng.random()
@@ -279,7 +283,8 @@ class World:
                 d2 = wrap(d2, store, w["mode"], w["depths"], 0, f"d{i}")
             self.docs.append(d2)
         self.ctxs: List[Any] = [copy.deepcopy(c) for c in plan["ctxs"]]
-        # sequential specification
+        # sequential specification: an environment of its own with caching off, a fresh compile per evaluation
+        self._ref_env = jsonpath.JSONPathEnvironment(filter_caching=False)
         self.refs: Dict[Tuple[int, int, int], _Ref] = {}
         for script in plan["clients"]:
             for op in script:
@@ -350,7 +355,7 @@ class World:
         return False
 
     def _reference(self, text: str, di: int, ci: int) -> _Ref:
-        env = jsonpath.JSONPathEnvironment(filter_caching=False)
+        env = self._ref_env
         ms: List[Any] = []
         exc: Optional[str] = None
         try:
@@ -363,9 +368,8 @@ class World:
         all_exc: Optional[str] = None
         if exc is not None:
             try:
-                env2 = jsonpath.JSONPathEnvironment(filter_caching=False)
                 kw = {"filter_context": self.ctxs[ci]} if self.ctxs[ci] is not None else {}
-                env2.compile(text).findall(self.docs[di], **kw)
+                env.compile(text).findall(self.docs[di], **kw)
             except Exception as e:  # noqa: BLE001
                 all_exc = type(e).__name__
         return _Ref(ms, exc, all_exc)
@@ -488,7 +492,7 @@ def _sync_op(w: World, ctx: Ctx, cid: int, op: List[Any], yield_point: Any = Non
     """Synchronous ops shared by the iterator and thread configurations (except stepwise iterate)."""
     kind = op[0]
     if kind == "gc":
-        gc.collect()
+        gc.collect(1)
         ctx.count("fault.gc.fired")
         ctx.log.add("gc", cid)
         ctx.state("iter", "-", "gc")
